@@ -3,29 +3,50 @@
    C30_cleanup (EVERY world, EVERY engine outcome for logs / attach / wait / exit code, EVERY position k of the
    single injected fault, for the closure handling one created workload): let kc be the fault budget left when
    the deferred clean-up starts.  If kc = None (there is no fault, or it fired earlier: writing the WAL entry,
-   looking the record up, fetching logs, attaching, waiting) then when the closure sends its last message the
-   workload has no record, no container, its resources are back in the node's usage, and nothing else about
-   nodes changed.  kc = None is implied by k = None and by k = 0 (the WAL entry cannot be written: the repaired
-   code removes the workload all the same).  A fault inside the clean-up (kc <> None) is outside the property:
-   the compensation itself has to succeed.  C30_cleanup_runs states the clean-up in isolation.
-   The exit-code / WAL-commit / stream-closure clauses are established for every fault position on explicit
-   scenarios (C30_cleanup_scenarios, the boolean the harness evaluates on the implementation). *)
+   looking the record up, fetching logs, attaching, waiting) then when the closure ends (closure_post):
+     - the workload has no record, no container, its resources are back in the node's usage, and nothing else
+       about nodes changed (cl_removed);
+     - the closure's WAL entry is committed: the WAL queue is what it was before the closure (cl_wal);
+     - on the channel: the forwarded output, then exactly one last message and nothing after it; the last
+       message carries the exit code of the process ([ls_code], the engine's answer) or is an error message
+       (cl_out; lambda_body_spec/body_io: the exit code exactly when the wait succeeded).
+   kc = None is implied by k = None and by k = 0 (the WAL entry cannot be written: the repaired code removes the
+   workload all the same).  A fault inside the clean-up (kc <> None) is outside the property: the compensation
+   itself has to succeed.  C30_cleanup_runs states the clean-up in isolation.  C30_stream_closes (every world,
+   every fault position): the last thing the whole operation does is close the stream.  Fault positions are the
+   faultable calls; a channel send is not one.  C30_cleanup_scenarios re-checks, for every fault position
+   outside the clean-up, the boolean the harness evaluates on the implementation, on explicit scenarios.
+   Hypothesis on the WAL: the token it issues next is not in use (tokens only grow). *)
 From Coq Require Import List ZArith.
 From Verif Require Import Base.Effects Calcium.World Calcium.Ops Calcium.Run Calcium.Sweeps Calcium.LambdaProofs.
 
 Theorem C30_cleanup : forall stdin lines id r w k x nd p,
   find_wl w id = Some x -> find_node w (w_node x) = Some nd -> find_plug w (w_node x) = Some p ->
+  (forall e, ~ In (wal_seq w, e) (walq w)) ->
   exists w' k' (kc : option nat), crunk (lambda_one stdin lines (MCreateOk id r)) w k = (w', k', tt) /\
     (k = None -> kc = None) /\ (k = Some 0%nat -> kc = None) /\
-    (kc = None -> lambda_removed id x w w').
+    (kc = None -> closure_post id x w w').
 Proof. exact lambda_one_spec. Qed.
 Print Assumptions C30_cleanup.
 
 Theorem C30_cleanup_runs : forall id tok final w0 w x nd p,
   body_post id w0 w -> find_wl w0 id = Some x -> find_node w0 (w_node x) = Some nd -> find_plug w0 (w_node x) = Some p ->
-  exists w', crunk (lambda_cleanup id tok final) w None = (w', None, tt) /\ lambda_removed id x w0 w'.
+  exists w', crunk (lambda_cleanup id tok final) w None = (w', None, tt) /\ lambda_removed id x w0 w' /\
+    out w' = final :: out w /\
+    walq w' = filter (fun e => negb (Nat.eqb (fst e) tok)) (walq w).
 Proof. exact cleanup_none. Qed.
 Print Assumptions C30_cleanup_runs.
+
+(* the body of the closure: what it leaves on the channel and in the WAL, and its last message *)
+Theorem C30_body : forall stdin lines id w k,
+  exists w1 k1 final, crunk (lambda_body stdin lines id) w k = (w1, k1, final) /\ body_post id w w1 /\ body_io id w w1 final.
+Proof. exact lambda_body_spec. Qed.
+Print Assumptions C30_body.
+
+Theorem C30_stream_closes : forall opi pod r plan stdin lines w k,
+  exists w1 k', crunk (lambda opi pod r plan stdin lines) w k = (set_out w1 (MClose :: out w1), k', tt).
+Proof. exact lambda_closes. Qed.
+Print Assumptions C30_stream_closes.
 
 (* the rpc handler (sync mode) drains the channel to its end whatever the stream does *)
 Theorem C30_rpc_drains : forall ms n k, fst (rpc_forward ms n k) = ms.
@@ -33,11 +54,10 @@ Proof. exact rpc_forward_drains. Qed.
 Print Assumptions C30_rpc_drains.
 
 Theorem C30_cleanup_scenarios : forall o, In o lambda_ops ->
-  forall k, is_send_at (script_of o) (prep busy3 o) k = false ->
-  match addr_of (script_of o) (prep busy3 o) k with Some f => in_cleanup f | None => false end = false ->
+  forall k, match addr_of (script_of o) (prep busy3 o) k with Some f => in_cleanup f | None => false end = false ->
   c30_check (prep busy3 o) o (waited_of (script_of o) (prep busy3 o) (Some k))
             (fst (final (script_of o) (prep busy3 o) (Some k))) = true.
-Proof. exact lambda_scenarios_all_k. Qed.
+Proof. exact lambda_scenarios_every_k. Qed.
 Print Assumptions C30_cleanup_scenarios.
 
 Theorem C30_beyond_last_call : forall A (p : cprog A) w k, (ncalls p w <= k)%nat ->
